@@ -63,7 +63,7 @@ EXTENDS Integers, Sequences, FiniteSets, TLC, Emit, Rat
 
 CONSTANTS Dev,      \* [flag name |-> BOOLEAN]   deviations of the code
           Hyp,      \* [flag name |-> BOOLEAN]   hypothetical regressions (non-vacuity runs)
-          Family,   \* "value" | "params" | "result" | "results" | "fields" | "fname"
+          Family,   \* "value" | "params" | "result" | "results" | "fields" | "savehist" | "fname"
           Tier,     \* "quick" | "thorough"
           Part, NParts    \* this TLC process handles the cases with index % NParts = Part
 
@@ -319,8 +319,21 @@ RUpd(st, u) ==
         [] st.type = CHOICET ->
              [st EXCEPT !.value = [@ EXCEPT !.data = [@ EXCEPT ![u.v.n + 1] = <<@[1] + 1, 1>>]],
                         !.total = NAdd(@, Num("PyInt", 1, 1)), !.vlist = accv, !.num = @ + 1]
+\* Result.merge(other): accumulated lists are extended; MISCTYPE takes the other's counters and value, every other
+\* type adds them (a MISC result merged with a never-updated one ends with num = 0 but a non-empty value list)
+AddArr(a, b) == [a EXCEPT !.data = [i \in 1..Len(a.data) |-> <<a.data[i][1] + b.data[i][1], 1>>]]
+RMerge(st, o) ==
+  LET st1 == IF st.acc THEN [st EXCEPT !.vlist = @ \o o.vlist, !.tlist = @ \o o.tlist] ELSE st
+  IN  IF st.type = MISCT
+      THEN [st1 EXCEPT !.num = o.num, !.value = o.value, !.total = o.total, !.rsum = o.rsum, !.rsq = o.rsq]
+      ELSE [st1 EXCEPT !.num = @ + o.num, !.value = IF st.type = CHOICET THEN AddArr(@, o.value) ELSE NAdd(@, o.value),
+                       !.total = NAdd(@, o.total), !.rsum = NAdd(@, o.rsum), !.rsq = NAdd(@, o.rsq)]
+\* a history item is an update [op "upd", v, tot] or the merge of another result given by ITS history [op "merge", rd <<R>>]
 RECURSIVE RFold(_, _)
-RFold(Rd, k) == IF k = 0 THEN RInit(Rd) ELSE RUpd(RFold(Rd, k - 1), Rd.hist[k])
+RFold(Rd, k) == IF k = 0 THEN RInit(Rd)
+                ELSE IF Rd.hist[k].op = "merge"
+                     THEN RMerge(RFold(Rd, k - 1), RFold(Rd.hist[k].rd[1], Len(Rd.hist[k].rd[1].hist)))
+                     ELSE RUpd(RFold(Rd, k - 1), Rd.hist[k])
 RState(Rd)  == RFold(Rd, Len(Rd.hist))
 
 RKeys == <<"name", "update_type_code", "value", "total", "result_sum", "result_squared_sum", "num_updates",
@@ -332,6 +345,11 @@ RECURSIVE Repeat(_, _)
 Repeat(x, n) == IF n = 0 THEN <<>> ELSE <<x>> \o Repeat(x, n - 1)
 DecRRaises(t, D) == /\ D.RatioZeroUpdatesRaises /\ Get(t, "update_type_code").n = RATIOT /\ Get(t, "total").n = 0
 DecR(t, D) ==
+  IF Hyp.ZeroUpdatesSkipsState /\ Get(t, "num_updates").n = 0
+  THEN RInit([name |-> Get(t, "name").s, type |-> Get(t, "update_type_code").n,
+              acc |-> Get(t, "accumulate_values_bool").n = 1,
+              nch |-> IF Get(t, "update_type_code").n = CHOICET THEN Len(Dec(Get(t, "value"), D).data) ELSE 0])
+  ELSE
   LET ty  == Get(t, "update_type_code").n
       acc == Get(t, "accumulate_values_bool").n = 1
       val == Dec(Get(t, "value"), D)
@@ -555,8 +573,9 @@ PContents == IF Thorough THEN PBase \o PExtra ELSE PBase
 IterNames(ps) == {ps[i].name : i \in {k \in 1..Len(ps) : ps[k].val.t \in {"List", "Set", "Str", "Array"}}}
 
 \* ---- Result histories ----
-U(v)     == [v |-> v, tot |-> Num("PyInt", 0, 1)]
-UR(v, t) == [v |-> v, tot |-> t]
+U(v)     == [op |-> "upd", v |-> v, tot |-> Num("PyInt", 0, 1), rd |-> <<>>]
+UR(v, t) == [op |-> "upd", v |-> v, tot |-> t, rd |-> <<>>]
+MG(Rd)   == [op |-> "merge", v |-> NoneV, tot |-> Num("PyInt", 1, 1), rd |-> <<Rd>>]
 SumAlpha == <<U(Num("PyInt", 3, 1)), U(Num("PyFloat", 1, 2)), U(Num("NpInt32", -2, 1)), U(Num("NpFloat32", 3, 2)),
               U(Num("NpFloat64", 1, 4)), U(Num("NpInt64", 5, 1)), U(Num("PyFloat", 0, 1)), U(Num("PyInt", 0, 1)),
               U(Num("PyFloat", 1, 0)), U(Num("NpFloat32", 1, 0))>>
@@ -582,14 +601,32 @@ IsPow2(d) == d \in {1, 2, 4, 8, 16, 32, 64, 128, 256, 512, 1024, 2048, 4096}
 LetterDyadic(ty, u) == IF IsNum(u.v) /\ IsInf(u.v) THEN TRUE ELSE IF ty = RATIOT THEN IsPow2(RDiv(<<u.v.n, u.v.d>>, <<u.tot.n, u.tot.d>>)[2])
                        ELSE IF IsNum(u.v) THEN IsPow2(u.v.d) ELSE TRUE
 Narrow(v) == v.t \in {"NpFloat32", "NpFloat16"}
-HistOk(ty, h) == IF ty = MISCT THEN TRUE
+RECURSIVE Updates(_)
+Updates(h) == IF h = <<>> THEN <<>>          \* every update letter of a history, merged results included
+              ELSE (IF Head(h).op = "merge" THEN Updates(Head(h).rd[1].hist) ELSE <<Head(h)>>) \o Updates(Tail(h))
+HistOk(ty, hh) == LET h == Updates(hh) IN
+                 IF ty = MISCT THEN TRUE
                  ELSE IF \E i \in 1..Len(h) : Narrow(h[i].v) \/ Narrow(h[i].tot)
                       THEN \A i \in 1..Len(h) : LetterDyadic(ty, h[i]) ELSE TRUE
 MkR(name, ty, acc, hist) == [name |-> name, type |-> ty, acc |-> acc, nch |-> IF ty = CHOICET THEN 3 ELSE 0, hist |-> hist]
+\* update / merge histories BEFORE the round trip: merge with a never-updated result, with an updated one, into a
+\* never-updated one, and an update after a merge (3 letters per alphabet; all types, both accumulate settings)
+MergeHists(ty, acc) ==
+  LET al == AlphaOf(ty)   R0(h) == MkR("res", ty, acc, h)   n == 3
+  IN  <<<<MG(R0(<<>>))>>>>
+      \o [i \in 1..n |-> <<al[i], MG(R0(<<>>))>>]
+      \o [k \in 1..n * n |-> <<al[((k - 1) \div n) + 1], MG(R0(<<al[((k - 1) % n) + 1]>>))>>]
+      \o [k \in 1..n * n |-> <<MG(R0(<<al[((k - 1) \div n) + 1], al[((k - 1) % n) + 1]>>))>>]
+      \o [k \in 1..n * n |-> <<al[((k - 1) \div n) + 1], MG(R0(<<>>)), al[((k - 1) % n) + 1]>>]
+      \o [i \in 1..n |-> <<MG(R0(<<al[i]>>)), MG(R0(<<>>))>>]
+MergePool ==
+  Concat([ty \in 1..4 |-> Concat([a \in 1..2 |->
+      LET hs == SelectSeq(MergeHists(ty - 1, a = 2), LAMBDA h : HistOk(ty - 1, h)) IN [h \in 1..Len(hs) |-> MkR("res", ty - 1, a = 2, hs[h])]])])
 ResultPool ==
   Concat([ty \in 1..4 |-> Concat([a \in 1..2 |->
       LET hs == SelectSeq(Hists(AlphaOf(ty - 1)), LAMBDA h : HistOk(ty - 1, h)) IN [h \in 1..Len(hs) |-> MkR("res", ty - 1, a = 2, hs[h])]])])
   \o Concat([a \in 1..2 |-> [h \in 1..Len(NarrowAlpha) |-> MkR("res", SUMT, a = 2, <<NarrowAlpha[h]>>)]])
+  \o MergePool
 
 \* ---- SimulationResults ----
 FalsyResSet ==
@@ -755,6 +792,78 @@ FieldsCase ==
                      tree |-> t, encRaises |-> Raises(t), decRaises |-> ~Raises(t) /\ DecSRaises(t, Dev), back |-> b,
                      tree2 |-> IF ok THEN EncS(b, Dev) ELSE t, rel |-> RelS(S), eqdef |-> EqDefinedP(FieldParams[p]), req |-> ReqObject]
 
+(* ---------------- multi-step save histories on ONE SimulationResults object ------------------------------------
+   A small machine folded over an operation sequence: the object S, the directory (file name -> what was saved into
+   it), the name of the last file.  Operations: save through a template (.json / .pickle), change a parameter IN
+   PLACE (params.add / params[name] = v: existing name, new name, a string that looks like a placeholder), replace
+   the parameters (set_parameters), update a stored result, set current_rep, replace the object by what the last
+   file holds (reload).  Laws: SaveNameIsCurrent - the name of every save is the template filled with the
+   parameters AS THEY ARE at that moment; the directory after every step is exactly the files the machine holds, each
+   loading back as the object that was saved into it last (evaluated by the harness after every step).
+   Hyp.StaleNameCache keeps the first name per template until set_parameters (and inside pickles): refuted by TLC.  *)
+HOp(op, tk, ext, name, val, P) == [op |-> op, tk |-> tk, ext |-> ext, name |-> name, val |-> val, P |-> P]
+HNoP == MkP(<<>>, {}, -1, <<>>)
+HT1  == <<Lit("h_"), Par("num"), Lit("_"), Par("str")>>
+HT2  == <<Lit("g_"), Par("str")>>
+HP0  == MkP(<<PV("num", Num("PyFloat", 3, 2)), PV("str", Str("ab")), PV("arr", Arr("int64", <<2>>, DataInt(2)))>>, {}, -1, <<>>)
+HP1  == MkP(<<PV("str", Str("qpsk")), PV("num", Num("PyFloat", 2, 1))>>, {}, -1, <<>>)
+HS0  == [params |-> HP0, runned |-> NoneV, current |-> 0, orig |-> NoneV,
+         res |-> StatesOf(<<[name |-> "s", rs |-> <<MkR("s", SUMT, FALSE, <<U(Num("PyInt", 3, 1))>>)>>]>>)]
+HSaves == <<HOp("save", HT1, ".json", "", NoneV, HNoP), HOp("save", HT1, ".pickle", "", NoneV, HNoP),
+            HOp("save", HT2, ".json", "", NoneV, HNoP)>>
+HOthers == <<HOp("add", <<>>, "", "num", Num("PyInt", 7, 1), HNoP), HOp("setitem", <<>>, "", "num", Num("PyFloat", 1, 4), HNoP),
+             HOp("add", <<>>, "", "str", Str("c{num}"), HNoP), HOp("add", <<>>, "", "zz", Num("PyInt", 1, 1), HNoP),
+             HOp("setparams", <<>>, "", "", NoneV, HP1), HOp("upd", <<>>, "", "", Num("PyInt", 4, 1), HNoP),
+             HOp("cur", <<>>, "", "", Num("PyInt", 5, 1), HNoP), HOp("reload", <<>>, "", "", NoneV, HNoP)>>
+HOps == HSaves \o HOthers
+SetParam(P, nm, v) == IF nm \in Names(P)
+                      THEN [P EXCEPT !.params = [i \in 1..Len(P.params) |-> IF P.params[i].name = nm THEN PV(nm, v) ELSE P.params[i]]]
+                      ELSE [P EXCEPT !.params = Append(@, PV(nm, v))]
+Lookup(seq, key) == LET hit == {i \in 1..Len(seq) : seq[i].key = key} IN IF hit = {} THEN 0 ELSE CHOOSE i \in hit : TRUE
+HStep(h, o) ==
+  CASE o.op = "save" ->
+         LET tkx  == WithExt(o.tk, o.ext)
+             tt   == TemplateText(tkx)
+             cur  == FileName(tkx, h.S.params)
+             ci   == Lookup(h.cache, tt)
+             nm   == IF Hyp.StaleNameCache /\ ci > 0 THEN h.cache[ci].name ELSE cur
+             S2   == [h.S EXCEPT !.orig = Str("@DIR@/" \o tt)]
+             ent  == [key |-> nm, S |-> S2, json |-> o.ext = ".json", cache |-> h.cache]
+             di   == Lookup(h.disk, nm)
+             c2   == IF ci > 0 THEN h.cache ELSE Append(h.cache, [key |-> tt, name |-> cur])
+         IN  [S |-> S2, disk |-> IF di > 0 THEN [h.disk EXCEPT ![di] = ent] ELSE Append(h.disk, ent), cache |-> c2, last |-> nm,
+              steps |-> Append(h.steps, [op |-> "save", template |-> TemplateText(o.tk \o <<Lit(o.ext)>>), name |-> nm, cur |-> cur])]
+    [] o.op \in {"add", "setitem"} ->
+         [h EXCEPT !.S.params = SetParam(@, o.name, o.val), !.steps = Append(@, [op |-> o.op, template |-> "", name |-> "", cur |-> ""])]
+    [] o.op = "setparams" ->
+         [h EXCEPT !.S.params = o.P, !.cache = <<>>, !.steps = Append(@, [op |-> o.op, template |-> "", name |-> "", cur |-> ""])]
+    [] o.op = "upd" ->
+         [h EXCEPT !.S.res = [i \in 1..Len(@) |-> [@[i] EXCEPT !.rs = [k \in 1..Len(@) |-> RUpd(@[k], U(o.val))]]],
+                   !.steps = Append(@, [op |-> o.op, template |-> "", name |-> "", cur |-> ""])]
+    [] o.op = "cur" ->
+         [h EXCEPT !.S.current = o.val.n, !.steps = Append(@, [op |-> o.op, template |-> "", name |-> "", cur |-> ""])]
+    [] o.op = "reload" ->
+         LET e == h.disk[Lookup(h.disk, h.last)]
+         IN  [h EXCEPT !.S = e.S, !.cache = IF e.json THEN <<>> ELSE e.cache,
+                       !.steps = Append(@, [op |-> o.op, template |-> "", name |-> h.last, cur |-> ""])]
+RECURSIVE HFold(_, _)
+HFold(ops, k) == IF k = 0 THEN [S |-> HS0, disk |-> <<>>, cache |-> <<>>, last |-> "", steps |-> <<>>]
+                 ELSE HStep(HFold(ops, k - 1), ops[k])
+\* what the directory holds after each prefix (name, saved object, format): the expectation of every step
+HFiles(ops, k) == LET d == HFold(ops, k).disk IN [i \in 1..Len(d) |-> [name |-> d[i].key, S |-> d[i].S, json |-> d[i].json]]
+HEnabled(ops) == \A k \in 1..Len(ops) : ops[k].op = "reload" => \E i \in 1..k - 1 : ops[i].op = "save"
+SaveHistCase ==
+  /\ c.kind = "init" /\ Family = "savehist"
+  /\ \E len \in 1..(IF Thorough THEN 4 ELSE 3) : \E i \in 1..Len(HOps) ^ len :
+        LET n == Len(HOps)
+            ops == [k \in 1..len |-> HOps[(((i - 1) \div (n ^ (len - k))) % n) + 1]]
+        IN  /\ Pick(i + len)
+            /\ ops[len].op = "save" /\ HEnabled(ops)
+            /\ c' = [kind |-> "savehist", id |-> <<len, i>>, S0 |-> HS0, rd0 |-> <<[name |-> "s", rs |-> <<MkR("s", SUMT, FALSE, <<U(Num("PyInt", 3, 1))>>)>>]>>,
+                     ops |-> [k \in 1..len |-> [op |-> ops[k].op, name |-> ops[k].name, val |-> ops[k].val, P |-> ops[k].P]],
+                     steps |-> HFold(ops, len).steps, files |-> [k \in 1..len |-> HFiles(ops, k)],
+                     req |-> ReqFiles \cup {"SaveNameIsCurrent", "DirectoryIsWhatWasSaved"}]
+
 \* FINE SCALARS (rel): values that differ only far down - tiny magnitudes, adjacent floats, 1e-13-scale
 \* differences, large values differing in the last digits.  value = (n/d) * 10^b10 + k * 2^e2 * 10^e10; inside a
 \* group only k varies, so two members are different numbers iff their k differ (exact, no big arithmetic needed).
@@ -802,7 +911,7 @@ FileNameCase ==
                      n1 |-> FileName(FnTemplate, P1), n2 |-> FileName(FnTemplate, P2)]
 
 Init == c = [kind |-> "init"]
-Next == ValueCase \/ ParamsCase \/ ResultCase \/ ResultsCase \/ FieldsCase \/ FileNameCase \/ FineCase
+Next == ValueCase \/ ParamsCase \/ ResultCase \/ ResultsCase \/ FieldsCase \/ SaveHistCase \/ FileNameCase \/ FineCase
 Emit == EmitCase(c')
 
 (* ==================================== the laws ================================================== *)
@@ -843,15 +952,21 @@ ChildLaw ==
 RECURSIVE SumData(_)
 SumData(d) == IF d = <<>> THEN 0 ELSE Head(d)[1] + SumData(Tail(d))
 StatsLaw ==
-  IsR => /\ c.st.num = Len(c.rd.hist)
-         /\ c.back.num = Len(c.rd.hist)
+  IsR => /\ (\A i \in 1..Len(c.rd.hist) : c.rd.hist[i].op = "upd") => c.st.num = Len(c.rd.hist)
+         /\ c.back.num = c.st.num
          /\ c.rd.type = CHOICET => (SumData(c.st.value.data) = c.st.total.n /\ c.st.total.n = c.st.num)
          /\ c.rd.acc /\ c.rd.type # MISCT => Len(c.st.vlist) = c.st.num
 FileNameInjective ==
   c.kind = "fname" => ((Kind(c.v1) = "Str") = (Kind(c.v2) = "Str") /\ ~LibEq(c.v1, c.v2) => c.n1 # c.n2)
 FileNameFunctional ==
   c.kind = "fname" => (Faithful(c.v1, c.v2) => c.n1 = c.n2)
-TypeOK == c.kind \in {"init", "value", "params", "result", "results", "fields", "fname", "fine"}
+TypeOK == c.kind \in {"init", "value", "params", "result", "results", "fields", "savehist", "fname", "fine"}
+\* every save of a history goes to the name the template has for the parameters as they are at that moment, and
+\* what the saved files hold round-trips (the JSON ones through Enc / Dec)
+SaveNameIsCurrent == c.kind = "savehist" => \A k \in 1..Len(c.steps) : c.steps[k].op = "save" => c.steps[k].name = c.steps[k].cur
+SavedFilesRoundTrip ==
+  c.kind = "savehist" => \A k \in 1..Len(c.files) : \A i \in 1..Len(c.files[k]) :
+     LET S == c.files[k][i].S IN SFaithful(DecS(EncS(S, Dev), Dev), S)
 \* members of a fine group are pairwise different numbers (k strictly increasing on one scale)
 FinePoolOk == c.kind = "fine" => \A i \in 1..Len(c.group.ks) - 1 : c.group.ks[i] < c.group.ks[i + 1]
 =============================================================================
